@@ -23,10 +23,9 @@ def modelled : List String := [
 
 def differentialOnly : List String := [
   "_contextlib.py:_reverse_to_module",
-  "_td.py:TensorDict.__init__",
+  "_lazy.py:LazyStackedTensorDict.share_memory_",
   "_td.py:TensorDict._new_unsafe",
   "_td.py:TensorDict._to_module",
-  "_td.py:TensorDict.names",
   "_torch_func.py:_cat",
   "_torch_func.py:_stack",
   "_torch_func.py:_stack.stack_fn",
@@ -39,10 +38,12 @@ def differentialOnly : List String := [
   "nn/common.py:TensorDictModule.__getattr__",
   "nn/common.py:TensorDictModuleWrapper.__getattr__",
   "nn/params.py:TensorDictParams._new_unsafe",
+  "nn/params.py:TensorDictParams._relock_param_td",
   "nn/probabilistic.py:_dynamo_friendly_to_dict",
   "nn/utils.py:_set_skip_existing_None.__call__",
   "nn/utils.py:_set_skip_existing_None.__call__.wrapper",
   "nn/utils.py:set_skip_existing.__enter__",
+  "tensorclass.py:_drop_stale_placeholders",
   "tensorclass.py:_from_tensordict",
   "tensorclass.py:_init_wrapper",
   "tensorclass.py:_init_wrapper.wrapper",
@@ -57,6 +58,7 @@ def differentialOnly : List String := [
   "utils.py:_ContextManager.set_mode",
   "utils.py:_is_non_tensor",
   "utils.py:_is_tensorclass",
+  "utils.py:_lock_after_memmap",
   "utils.py:_pass_through_cls",
   "utils.py:cache",
   "utils.py:cache.newfun"]
